@@ -17,7 +17,7 @@ RULE = ("random populated topologies (3..12 real nodes, >=2 nodes on most levels
         "pattern, multicast-off pattern, profile class).")
 REQUIRED = {"level_members_once": 150, "other_levels_clean": 150, "unacknowledged": 150,
             "relay_rebroadcast": 20, "multicast_off_not_listening": 30}
-BUDGET = {"quick": 150, "thorough": 600}
+BUDGET = {"quick": 480, "thorough": 900}
 
 
 def populated(rng, nmin=3, nmax=12):
